@@ -208,6 +208,24 @@ def targeted_programs(dev):
                         "args": {"srack": "S", "s1": I(1), "s2": I(8), "drack": "D", "d1": I(1), "d2": I(96), "vol": ((M * 100) // k + 10) * 10, "md": I(12)}})
         h["ops"] = ops
         progs.append(h)
+    # a dispense without tip selection directly after an aspirate with one (and the other way round): no inheritance
+    lws = [gen.mk_plate("plate", 2, 2, 0, 10, [0, 0, 0, 0])]
+    h = gen.header("emit/tip-after-tip", dev, Fraction(1), 950, lws, flags={"comp": False, "norm": False, "robot": False})
+    TIP = lambda n: {"k": "one", "s": ["int", n]}
+    h["ops"] = [{"op": "emit", "fn": "aspirate_well", "args": {"rack": "R", "pos": I(1), "vol": 10000, "tip": TIP(3)}},
+                {"op": "emit", "fn": "dispense_well", "args": {"rack": "R", "pos": I(2), "vol": 10000}},
+                {"op": "emit", "fn": "aspirate_well", "args": {"rack": "R", "pos": I(1), "vol": 10000}},
+                {"op": "emit", "fn": "dispense_well", "args": {"rack": "R", "pos": I(2), "vol": 10000, "tip": {"k": "coll", "x": [["int", 1], ["tip", 8]]}}},
+                {"op": "emit", "fn": "aspirate_well", "args": {"rack": "R", "pos": I(1), "vol": 10000, "tip": {"k": "one", "s": ["any"]}}},
+                {"op": "emit", "fn": "dispense_well", "args": {"rack": "R", "pos": I(2), "vol": 10000, "tip": {"k": "one", "s": ["any"]}}}]
+    progs.append(h)
+    # a worklist that is entered a second time (and one that is cleared): the DiTi rule looks at the records of the current filling
+    h = gen.header("emit/reentered", dev, Fraction(1), 950, lws, flags={"comp": False, "norm": False, "robot": False, "file": True})
+    E2 = lambda fn, **a: {"op": "emit", "fn": fn, "args": a}
+    h["ops"] = [{"op": "enter"}, E2("flush"), E2("commit"), E2("flush"), E2("flush"), {"op": "exit"},
+                {"op": "enter"}, E2("set_diti", idx=I(2)), E2("flush"), E2("flush"), E2("set_diti", idx=I(3)), E2("commit"), E2("set_diti", idx=I(1)), {"op": "exit"},
+                {"op": "clear"}, E2("set_diti", idx=I(4)), E2("wash", scheme=I(1)), E2("set_diti", idx=I(5)), {"op": "clear"}, E2("comment", text="c"), E2("set_diti", idx=I(6))]
+    progs.append(h)
     # whole numbers in other representations (3.0, numpy.int64(3)): if accepted, the record carries the plain integer
     lws = [gen.mk_plate("plate", 2, 2, 0, 10, [0, 0, 0, 0])]
     h = gen.header("emit/foreign-numbers", dev, Fraction(1), 950, lws, flags={"comp": False, "norm": False, "robot": False})
